@@ -32,8 +32,9 @@ DEVS = {
     "MC_NoLookahead_dev3_prefix.cfg": "Inv_Prefix", "MC_NoLookahead_dev4_prefix.cfg": "Inv_Prefix",
     "MC_NoLookahead_dev5_intact.cfg": "Inv_InputsIntact", "MC_NoLookahead_dev5_rerun.cfg": "Inv_Rerun",
     "MC_NoLookahead_dev6_intact.cfg": "Inv_InputsIntact", "MC_NoLookahead_dev6_rerun.cfg": "Inv_Rerun",
+    "MC_NoLookahead_dev7_prefix.cfg": "Inv_Prefix",
 }
-COMPONENTS = ("snap_bb", "snap_ob", "snap_ab", "notified", "account", "account_df", "actions")
+COMPONENTS = ("snap_bb", "snap_ob", "snap_ab", "notified", "account", "account_df", "actions", "account_live")
 
 
 # ---- real runs ----------------------------------------------------------------------------------------------------
